@@ -77,6 +77,9 @@ func ClassOf(t *vfs.Node, r vfs.Req) string {
 		if r.FailAfter != nil {
 			parts = append(parts, "bodyfail")
 		}
+		if r.CancelAfter != nil {
+			parts = append(parts, "cancel-mid-body")
+		}
 	}
 	return strings.Join(parts, ",")
 }
